@@ -36,13 +36,29 @@ DILATION_SIDES = [{"L": b"\xff" * 8, "F": b"\x00" * 8},
 class FullWorld:
     """names: "L" is the wormhole with the greater side (Leader), "F" the other"""
 
-    def __init__(self, dilation=("L", "F"), variant=0, no_listen=()):
+    def __init__(self, dilation=("L", "F"), variant=0, no_listen=(), track=False):
         self.no_listen = set(no_listen)
+        self.gets_before_stop = ()
         self.dsides = DILATION_SIDES[variant % len(DILATION_SIDES)]
         self.mb = MailboxWorld(seed=0, clients=(("F", "deferred"), ("L", "deferred")), sides=SIDE_BYTES,
                                dilation=True, versions=None)
         self.cl = self.mb.clients
         self.bind = Binding(self.mb)
+        self.tracker = None
+        if track:
+            # the mailbox group's ground-truth tracker rides along: what the two *applications* see on this world - the whole
+            # stack, Dilation busy underneath - is judged by MailboxObs.tla like any run of the mailbox group
+            from ..mbobs import Tracker
+            self.tracker = Tracker(self.mb, self.bind)
+            self.tracker._dupswap = False
+            orig_apply = self.mb.apply
+
+            def apply(act, _orig=orig_apply):
+                self.tracker.before(act)
+                r = _orig(act)
+                self.tracker.after(act)
+                return r
+            self.mb.apply = apply
         self.api = {}
         self.links = {}            # model link id -> SimLink
         self.attempt_seen = []     # TCP attempts (non-mailbox) in creation order
@@ -340,6 +356,9 @@ class FullWorld:
                 link.observe_loss(e)
         elif a == "Stop":
             self.stop_called[x] = len(self.schedule)
+            # (an application with get_*() calls outstanding when it - or its peer - closes)
+            for who, kind in self.gets_before_stop:
+                mb.apply({"a": "AppGet", "c": who, "kind": kind})
             mb.apply({"a": "AppClose", "c": x})
         self.run_auto_timers()
         self._new_attempts()
@@ -612,8 +631,9 @@ BENIGN = ("no transition for MethodicalInput(method=<function Connector.accept",
           "no transition for MethodicalInput(method=<function Connector.add_candidate")
 
 
-def replay_behaviour(tid, states, no_listen=(), then_stop=()):
-    w = FullWorld(variant=tid, no_listen=no_listen)
+def replay_behaviour(tid, states, no_listen=(), then_stop=(), track=False, gets_before_stop=()):
+    w = FullWorld(variant=tid, no_listen=no_listen, track=track)
+    w.gets_before_stop = tuple(gets_before_stop)
     w.traffic = (tid % 2 == 0)
     w.frag = tid % 9                          # most replays fragment the handshake units (FullWorld.deliver_unit)
     drift = None
@@ -656,6 +676,17 @@ def replay_behaviour(tid, states, no_listen=(), then_stop=()):
     # waiting for one* (nobody retries, by design); a Manager that still believes it is connected is not waiting
     excused = w.network_cut_all_current() and all(final[n]["mgr"] == "CONNECTING" for n in ("L", "F"))
     dilated = all(n in w.api for n in ("L", "F")) and not excused
+    if track:
+        # late questions after everything has come to rest, then the mailbox group's record of what the applications saw
+        for n in ("L", "F"):
+            if n in w.stop_called:
+                for kind in ("message", "versions"):
+                    w.mb.apply({"a": "AppGet", "c": n, "kind": kind})
+        try:
+            w.run_out()
+        except Exception as e:
+            w.internal.append("run_out (late gets): %r" % (e,))
+        w.mailbox_record = w.tracker.record(tid, drained=bool(rested), goal=False, extra={"origin": "full-stack"})
     internal = w.finish()
     benign = [x for x in internal if any(b in x for b in BENIGN)]
     fin = states[-1]
@@ -669,6 +700,45 @@ def replay_behaviour(tid, states, no_listen=(), then_stop=()):
            "restStopDue": {n: bool(rested and n in w.stop_called) for n in ("L", "F")},
            "restConvergenceDue": bool(rested and dilated and not w.stop_called)}
     return w, rec, drift
+
+
+def app_events_family(wd, prop, quick, seed):
+    """The mailbox group's question asked of the whole stack (C18 and friends): applications with get_*() calls outstanding close
+    their wormholes - or see their peer close - while Dilation is in the middle of something (an accept() queued for a Connector
+    that is being stopped, a connection being abandoned, dialling, connected).  The situations are witness behaviours of
+    DilationL3.tla (TLC), executed on two real dilating wormholes; returns the mailbox-group records (judged by MailboxObs.tla)
+    and the schedules."""
+    both = {"L", "F"}
+    goals = {
+        "stop_with_accept_queued": "\\E x \\in Sides : stopReq[x] /\\ last[1] = \"Stop\" /\\ accepts[x] # <<>>",
+        "stop_while_abandoning": 'stopReq.F /\\ last[1] = "Stop" /\\ mgr.F \\in {"ABANDONING", "STOPPING"} /\\ cuts >= 1',
+        "stop_connected_both": 'stopReq.L /\\ last[1] = "Stop" /\\ sel.L > 0 /\\ sel.F = sel.L',
+        "stop_while_dialling": "\\E x \\in Sides : stopReq[x] /\\ last[1] = \"Stop\" /\\ \\E i \\in LinkIds : links[i].phase = \"dial\" /\\ links[i].dialer = x",
+    }
+    if not quick:
+        goals["both_stop"] = "stopReq.L /\\ stopReq.F /\\ nlinks >= 1"
+        goals["stop_with_two_links_up"] = ("\\E x \\in Sides : stopReq[x] /\\ last[1] = \"Stop\" /\\ "
+                                           "Cardinality({i \\in LinkIds : links[i].endst[x] = \"up\"}) >= 2")
+    wit, unreached = common.witnesses(wd, "DilationL3", dict(MaxLinks=3, MaxCuts=1, Dilaters=both, AllowStop=both, NoListen=set()),
+                                      goals, "MC_%s_appgoal" % prop, timeout=900)
+    out = []
+    tid = 700000
+    for g, tr in wit:
+        for gets in ((("L", "message"), ("L", "message"), ("L", "versions"), ("F", "message"), ("F", "versions")),
+                     (("F", "message"), ("L", "verifier"), ("L", "message"))):
+            for then_stop in ((), ("L", "F")):
+                tid += 1
+                try:
+                    w, rec, drift = replay_behaviour(tid, tr, then_stop=[x for x in then_stop], track=True, gets_before_stop=gets)
+                except Exception as e:
+                    out.append((None, {"goal": g, "error": repr(e)[:200]}))
+                    continue
+                mrec = w.mailbox_record
+                mrec["tid"] = tid
+                mrec["origin"] = "family:full-stack:" + g
+                out.append((mrec, {"goal": g, "schedule": w.schedule, "gets_before_stop": [list(x) for x in gets],
+                                   "then_stop": list(then_stop)}))
+    return out, {"reached": [g for g, _ in wit], "unreached": unreached}
 
 
 TRANSIT_RELAY_PORT = 4801
@@ -922,6 +992,10 @@ def run(prop, tier):
                 "stop_while_dialling": "\\E x \\in Sides : stopReq[x] /\\ last[1] = \"Stop\" /\\ \\E i \\in LinkIds : links[i].phase = \"dial\" /\\ links[i].dialer = x",
                 "stop_connected_both": 'stopReq.L /\\ last[1] = "Stop" /\\ sel.L > 0 /\\ sel.F = sel.L',
                 "both_stop": "stopReq.L /\\ stopReq.F /\\ nlinks >= 1",
+                # the Leader's monitor has given up on a silent peer (disconnect() asked for) and the application closes before
+                # the loss of that connection has been seen; the same with the Follower closing
+                "stop_after_monitor_gave_up_L": 'stopReq.L /\\ last[1] = "Stop" /\\ last[2] = "L" /\\ cuts >= 1 /\\ sel.L > 0 /\\ links[sel.L].endst.L = "closing" /\\ links[sel.L].endst.F = "up"',
+                "stop_after_monitor_gave_up_F": 'stopReq.F /\\ last[1] = "Stop" /\\ last[2] = "F" /\\ cuts >= 1 /\\ sel.L > 0 /\\ links[sel.L].endst.L = "closing" /\\ ~stopReq.L',
                 # a connection that has been up for a ping interval (the close itself is added on the real side: then_stop)
                 # a connection that died between becoming a candidate and being selected: its Manager holds a dead connection
                 # until the queued loss callback runs (closed by L / F / both afterwards, like the keepalive ones)
